@@ -173,7 +173,9 @@ func init() {
 	dirOver := HarnessRun{Name: "h_damage.DirOverwritten", Quick: B{"segs": 2, "recs": 1, "profs": 1, "alloc_cap": 96, "conc_cap": 128, "max_alloc": 67108900},
 		Thorough: B{"segs": 2, "recs": 2, "profs": 1, "alloc_cap": 128, "conc_cap": 160, "max_alloc": 67108900},
 		Split: []SplitDim{{"layout", numLayouts}, {"dseg", same("segs")}, {"region", regionN}, {"kind", two}}, Reach: []string{"dir-damaged"}}
-	addProp(&Prop{ID: "C14", DesignRef: "DESIGN.md §4 C14", Runs: []HarnessRun{readOver, readTrunc, dirOver},
+	dirTrunc := HarnessRun{Name: "h_damage.DirTruncated", Quick: B{"segs": 2, "recs": 2}, Thorough: B{"segs": 3, "recs": 2},
+		Split: []SplitDim{{"layout", numLayouts}, {"dseg", same("segs")}}, Reach: []string{"dir-truncated"}}
+	addProp(&Prop{ID: "C14", DesignRef: "DESIGN.md §4 C14", Runs: []HarnessRun{readOver, readTrunc, dirOver, dirTrunc},
 		Assumptions: []string{"CRC32C is an uninterpreted function; a record whose bytes changed is assumed not to verify by an accidental checksum collision (probability 2^-32 per damaged record); what is decided is that every byte that can influence a returned field or the framing is covered by the checksum or compared explicitly and that no path returns data without those checks",
 			"allocation bound: every make() with a symbolic size is asserted to stay <= 64 MiB + 36 bytes",
 			"ReadAt follows its documented contract"}})
